@@ -310,8 +310,8 @@ class Responder():
         """
         self.environ = environ
 
-        if self.chunkable is not None:
-            self.chunkable = chunkable
+        if chunkable is not None:
+            self.chunkable = True if chunkable else False
 
         self.started = False
         self.headed = False
@@ -780,8 +780,8 @@ class Server():
                                  requestant.body)
                     # create or restart wsgi app responder here
                     environ = self.buildEnviron(requestant)
+                    chunkable = True if requestant.version >= (1, 1) else False
                     if ca not in self.reps:
-                        chunkable = True if requestant.version >= (1, 1) else False
                         responder = Responder(incomer=requestant.remoter,
                                                   app=self.app,
                                                   environ=environ,
@@ -789,7 +789,7 @@ class Server():
                         self.reps[ca] = responder
                     else:  # reuse
                         responder = self.reps[ca]
-                        responder.reset(environ=environ)
+                        responder.reset(environ=environ, chunkable=chunkable)
 
 
     def serviceReps(self):
